@@ -105,21 +105,34 @@ Proof. exact lock_history_ok. Qed.
 Print Assumptions C12_interleavings_meet_oracle.
 
 (* concurrency 2 - what the harness can see.  Calls made by several goroutines at one
-   virtual instant are ordered by the lock alone.  Whatever that order was, the group
-   check used on concurrent histories accepts the observations and computes the state
-   reached (no false alarm) ... *)
+   virtual instant (each goroutine any number of calls, in its program order) are
+   ordered by the lock alone.  Whatever that order was, the group check used on
+   concurrent histories accepts the observations and computes the state reached (no
+   false alarm) ... *)
 Theorem C12_same_instant_any_order : forall ops s t s' bs,
   Forall (at_instant t) ops -> run s ops = Some (s', bs) -> group_step s t ops bs = Some s'.
 Proof. exact group_sound. Qed.
 Print Assumptions C12_same_instant_any_order.
 
-(* ... and every chain of accepted groups (at most one call per goroutine and instant)
-   satisfies the property oracle *)
+(* ... and every chain of accepted groups satisfies the property oracle *)
 Theorem C12_accepted_groups_meet_oracle : forall t0 s gs,
-  new_provider t0 = Some s -> groups_ok s t0 gs = true -> groups_wf gs = true ->
-  C12_ok (groups_obs gs) = true.
+  new_provider t0 = Some s -> groups_ok s t0 gs = true -> C12_ok (groups_obs gs) = true.
 Proof. exact conc_sound. Qed.
 Print Assumptions C12_accepted_groups_meet_oracle.
+
+(* histories with tens of thousands of rotations (ids beyond 2^16) are judged by the
+   one-pass oracle C12_long_ok: the model always satisfies it, and it decides "identifiers
+   never repeat" for all Current results at once: over the whole sequence of keys handed
+   out, ids never go down and equal ids mean the very same key *)
+Theorem C12_model_meets_long_oracle : forall t0 ops s bs,
+  mono t0 ops -> history t0 ops = Some (s, bs) -> C12_long_ok bs = true.
+Proof. exact model_meets_long_oracle. Qed.
+Print Assumptions C12_model_meets_long_oracle.
+
+Theorem C12_long_unique : forall l,
+  C12_long_ok l = true -> StronglySorted same_or_later (curs l).
+Proof. exact long_unique. Qed.
+Print Assumptions C12_long_unique.
 
 (* the hypotheses are satisfiable and the statements not vacuous: a history with
    a rotation, an expiry and a late lookup *)
